@@ -86,6 +86,15 @@ pub fn run(out: &mut Out, tier: &str, seed: u64) {
         cur = next;
     }
     out.notes.push(format!("exhaustive: all strings of length <= {max_len} over {:?}", alphabet));
+    // class boundaries: every string of length <= 3 over the first / last character of each class and
+    // their ASCII neighbours
+    let edges = ["a", "z", "A", "Z", "0", "9", "-", "_", ".", "/", ":", "@", "[", "`", "{", "~"];
+    let mut cur: Vec<String> = vec![String::new()];
+    for _ in 0..3 {
+        let mut next = Vec::new();
+        for p in &cur { for a in &edges { let s = format!("{p}{a}"); one(out, &s); next.push(s); } }
+        cur = next;
+    }
     // random long names over a wider alphabet (mostly valid + hostile)
     let mut rng = Rng::new(seed);
     let wide: Vec<char> = "abcxyzABCXYZ0189---___...".chars().collect();
